@@ -239,6 +239,7 @@ package allocation
 //@   ensures [C15,C16:closed-once] socketsClosed == old(socketsClosed) + (old(has(a.tcpConnections, connectionID)) ? 1 : 0)
 //@   ensures [C16:timer-stopped] old(has(a.tcpConnections, connectionID)) ==> !armed(old(a.tcpConnections[connectionID]).bindTimer)
 //@   ensures forall t :: dur(t) == old(dur(t)) && timerfn(t) == old(timerfn(t)) && (armed(t) ==> old(armed(t)))
+//@   ensures tcpConnsWF(a)
 //@   assigns entries(a.tcpConnections), socketsClosed, timers
 
 //@ signal allocation.Allocation.closed
@@ -282,7 +283,7 @@ package allocation
 //@   ensures [C06:expiry] allocOf(m, alloc.fiveTuple.SrcAddr, alloc.fiveTuple.DstAddr, int(alloc.fiveTuple.Protocol)) == nil
 
 //@ func (*Manager).CreateAllocation
-//@   requires m.log != nil && m.allocations != nil && m.allocatePacketConn != nil && m.allocateListener != nil
+//@   requires m.log != nil && m.allocations != nil && m.allocatePacketConn != nil && m.allocateListener != nil && allocsNonNil(m)
 //@   requires [C03:authed] authOK && userID == authUser
 //@   ensures [C04:no-dup] fiveTuple != nil && old(allocOf(m, fiveTuple.SrcAddr, fiveTuple.DstAddr, int(fiveTuple.Protocol))) != nil ==> res1 != nil
 //@   ensures [C04,C15:fail-clean] res1 != nil ==> res0 == nil && (forall k :: haskey(m.allocations, k) == old(haskey(m.allocations, k)) && valat(m.allocations, k) == old(valat(m.allocations, k))) && allocCreatedEvents == old(allocCreatedEvents)
@@ -326,6 +327,8 @@ package allocation
 //@   requires m != nil && tcpConnsWF(a) && a.log != nil
 //@   ensures [C15,C16:removed] !has(a.tcpConnections, connectionID)
 //@   ensures [C15,C16:closed-once] socketsClosed == old(socketsClosed) + (old(has(a.tcpConnections, connectionID)) ? 1 : 0)
+//@   ensures tcpConnsWF(a)
+//@   ensures forall t :: dur(t) == old(dur(t)) && timerfn(t) == old(timerfn(t)) && (armed(t) ==> old(armed(t)))
 //@   assigns entries(a.tcpConnections), socketsClosed, timers
 
 //@ func (*Manager).addTCPConnection$1
@@ -377,4 +380,17 @@ package allocation
 //@   at-call github.com/pion/stun/v3.Build assert [C05:data-indication] len(arg0) == 4 && typeis(arg0[2], proto.PeerAddress) && typeis(arg0[3], proto.Data) && isUDP(srcAddr) && sameSlice(unbox(arg0[2], proto.PeerAddress).IP, srcAddr.(*net.UDPAddr).IP) && unbox(arg0[2], proto.PeerAddress).Port == srcAddr.(*net.UDPAddr).Port && sameSlice(unbox(arg0[3], proto.Data), buffer[0:n]) && channel == nil && hasPerm(a, srcAddr)
 //@   at-call (*Manager).DeleteAllocation assert [C04,C15:own-tuple] recv == manager && arg0 == a.fiveTuple
 //@   loop 0 invariant relayReady(a, manager) && len(buffer) == 1600 && base(buffer) >= old(allocTop)
+//@   loop 0 invariant allocOf(manager, a.fiveTuple.SrcAddr, a.fiveTuple.DstAddr, int(a.fiveTuple.Protocol)) != nil ==> closeReady(allocOf(manager, a.fiveTuple.SrcAddr, a.fiveTuple.DstAddr, int(a.fiveTuple.Protocol)))
+
+//@      // ---- relay accept loop for TCP allocations (C02, C15, C16)
+//@ spec func listenReady(a *Allocation, manager *Manager) bool = manager != nil && manager.log != nil && a.relayListener != nil && a.TurnSocket != nil && a.fiveTuple != nil && a.log != nil && a.fiveTuple.SrcAddr != nil && a.tcpConnections != nil && tcpConnsWF(a) && allocsNonNil(manager)
+
+//@ func (*Allocation).connHandler
+//@   requires listenReady(a, manager)
+//@   requires allocOf(manager, a.fiveTuple.SrcAddr, a.fiveTuple.DstAddr, int(a.fiveTuple.Protocol)) != nil ==> closeReady(allocOf(manager, a.fiveTuple.SrcAddr, a.fiveTuple.DstAddr, int(a.fiveTuple.Protocol)))
+//@   at-call (*Manager).addTCPConnection assert [C02,C16:only-permitted] recv == manager && arg0 == a && arg1 == conn && typeis(remoteAddrOf(conn), *net.TCPAddr) && hasPerm(a, remoteAddrOf(conn))
+//@   at-call invoke net.PacketConn.WriteTo assert [C02,C04:to-owner] recv == a.TurnSocket && arg1 == a.fiveTuple.SrcAddr && hasPerm(a, remoteAddrOf(conn))
+//@   at-call github.com/pion/stun/v3.Build assert [C16:attempt-indication] len(arg0) == 4 && typeis(arg0[2], proto.PeerAddress) && typeis(arg0[3], proto.ConnectionID) && sameSlice(unbox(arg0[2], proto.PeerAddress).IP, tcpAddr.IP) && unbox(arg0[2], proto.PeerAddress).Port == tcpAddr.Port && unbox(arg0[3], proto.ConnectionID) == cid && has(a.tcpConnections, cid)
+//@   at-call (*Manager).DeleteAllocation assert [C04,C15:own-tuple] recv == manager && arg0 == a.fiveTuple
+//@   loop 0 invariant listenReady(a, manager)
 //@   loop 0 invariant allocOf(manager, a.fiveTuple.SrcAddr, a.fiveTuple.DstAddr, int(a.fiveTuple.Protocol)) != nil ==> closeReady(allocOf(manager, a.fiveTuple.SrcAddr, a.fiveTuple.DstAddr, int(a.fiveTuple.Protocol)))
